@@ -101,6 +101,12 @@ out += ["", "Changes that were missed at first and what was strengthened:", "",
         "  from the wrong place when the old handle sits at the end of a trimmed stream - C19 does not judge the lapped region's content for old positions at the end of the stream, where 'the audio that would have been read next'",
         "  is the decoder's hidden tail). `C03_r5m2` (endless discard loop in `ov_pcm_seek` on a phantom tail followed by an undecodable link) needed undecodable links and overstated final granule positions in C03; the",
         "  combination comes up in the thorough tier (reported there as `crash:cpu-budget:during pcm_seek`), not in a quick run. `C15_r5m2` is outside the property as stated (section 13).",
+        "* Round 6 (16 changes, first batch only): all reported; strengthened for `C10_r6m1` (request lengths vary per call and a tap filter checks what `ov_read_filter` shows its filter) and `C15_r6m1` (the two ends of the accepted",
+        "  bitrate / quality interval of a (channels, rate) pair are found by bisection over real set-up calls and requested exactly).",
+        "* Round 7 (all 20 properties, one change each; quick tiers had been scaled 2-3x beforehand): 19 reported as the checks stood. `C15_r7m1` (channel-count guard moved from `vorbis_encode_setup_init` to the two set-up calls, so a",
+        "  control request on an info that never saw a successful set-up call arms a template and `setup_init` succeeds with 0 channels at 0 Hz) was missed because the C15 workload only made control requests after a successful set-up call -",
+        "  narrower than the quantifier ('any sequence of control requests'). C15 now also makes control requests before the set-up call, instead of it, and after a refused three-step set-up call (which leaves the info uncleared), then calls",
+        "  `vorbis_encode_setup_init`; a success there is judged like any other (channels in 1..255 and rate > 0 as requested, analysis init, header output, encode). On the unchanged tree all ~1 500 such sequences per quick run are refused.",
         "<!-- AUTOGEN-END -->"]
 p = os.path.join(V, 'DESIGN.md')
 s = open(p).read()
